@@ -1127,7 +1127,9 @@ class Fxp():
                     val = val.astype(dtype)
             elif dtype == int or dtype == 'uint' or dtype == 'int' or np.issubdtype(dtype, np.integer):
                 if self.n_frac == 0:
-                    val = raw_val
+                    # (a copy: the caller's array must not be the stored codes themselves - a write into it, or an in-place
+                    # NumPy function such as np.put / np.add.at on the object, would bypass rounding, overflow handling and flags)
+                    val = raw_val.copy() if isinstance(raw_val, np.ndarray) else raw_val
                 else:
                     val = raw_val // self._get_conv_factor()
                     val = utils.int_array(np.asarray(val))     # also a 0-d object array (wide scalar), whose // gives a Python int
